@@ -203,3 +203,320 @@ Proof.
   - specialize (Hok f l El). rewrite <- E. destruct l; [congruence|reflexivity].
   - now rewrite <- E.
 Qed.
+
+(** ================================================================================================
+    O2/O3. What one outline entry shows: kind, name, the range of the declaring identifier, one child per
+    template argument (in map order) then one per field; defs of a defset as its children; nothing else
+    ================================================================================================ *)
+Definition leaf_child (S : symbol_map) (k : sym_kind) (dk : ds_kind) (id : N) (d : docsym) : Prop :=
+  exists e, get_entry S (k, id) = Some e /\
+            d = DocSym (e_name e) (p_typ (e_payload e)) (fr_lo (e_def e)) (fr_hi (e_def e)) dk [].
+
+Lemma leaf_docsym_spec : forall S k dk id d, leaf_docsym S k dk id = SOk d -> leaf_child S k dk id d.
+Proof.
+  intros S k dk id d H. unfold leaf_docsym, symbol in H. destruct (get_entry S (k, id)) as [e|] eqn:E; [|discriminate].
+  cbn in H. injection H as <-. exists e. auto.
+Qed.
+
+Lemma leaf_docsyms_spec : forall S k dk ids ds,
+  smap (leaf_docsym S k dk) ids = SOk ds -> Forall2 (leaf_child S k dk) ids ds.
+Proof.
+  intros S k dk ids ds H. apply smap_Forall2 in H. induction H; constructor; auto. now apply leaf_docsym_spec.
+Qed.
+
+(** the outline entry of a record *)
+Definition record_entry_spec (S : symbol_map) (e : entry) (r : option docsym) : Prop :=
+  match e_payload e with
+  | PRecord RKClass targs fields _ =>
+      exists ts fs, r = Some (DocSym (e_name e) (s2n "class") (fr_lo (e_def e)) (fr_hi (e_def e)) DKClass (ts ++ fs)) /\
+                    Forall2 (leaf_child S KTemplateArg DKTemplateArgument) (amap_values targs) ts /\
+                    Forall2 (leaf_child S KRecordField DKField) (amap_values fields) fs
+  | PRecord RKDef _ fields _ =>
+      exists fs, r = Some (DocSym (e_name e) (s2n "def") (fr_lo (e_def e)) (fr_hi (e_def e)) DKDef fs) /\
+                 Forall2 (leaf_child S KRecordField DKField) (amap_values fields) fs
+  | _ => r = None
+  end.
+
+Lemma record_docsym_spec : forall S e r, record_docsym S e = SOk r -> record_entry_spec S e r.
+Proof.
+  intros S e r H. unfold record_docsym, record_entry_spec in *.
+  destruct (e_payload e) as [k targs fields ps| | | | | |]; try (now injection H as <-).
+  destruct k.
+  - apply sbind_ok in H. destruct H as (ts & Ht & H). apply sbind_ok in H. destruct H as (fs & Hf & H).
+    injection H as <-. exists ts, fs. split; [reflexivity|]. split; now apply leaf_docsyms_spec.
+  - apply sbind_ok in H. destruct H as (fs & Hf & H). injection H as <-. exists fs. split; [reflexivity|].
+    now apply leaf_docsyms_spec.
+Qed.
+
+Definition entry_spec (S : symbol_map) (s : symbol_id) (r : option docsym) : Prop :=
+  exists e, get_entry S s = Some e /\
+  match fst s with
+  | KRecord => record_entry_spec S e r
+  | KDefset =>
+      exists rs, r = Some (DocSym (e_name e) (s2n "defset") (fr_lo (e_def e)) (fr_hi (e_def e)) DKDefset (filter_some rs)) /\
+                 Forall2 (fun id x => exists de, get_entry S (KRecord, id) = Some de /\ record_entry_spec S de x)
+                         (p_defs (e_payload e)) rs
+  | KMulticlass =>
+      exists ts, r = Some (DocSym (e_name e) (s2n "multiclass") (fr_lo (e_def e)) (fr_hi (e_def e)) DKMulticlass ts) /\
+                 Forall2 (leaf_child S KTemplateArg DKTemplateArgument) (amap_values (p_targs (e_payload e))) ts
+  | KTemplateArg | KRecordField | KVariable | KDefm => r = None
+  end.
+
+Theorem outline_entry : forall S s r, symbol_to_document_symbol S s = SOk r -> entry_spec S s r.
+Proof.
+  intros S s r H. unfold symbol_to_document_symbol in H. apply sbind_ok in H. destruct H as (e & He & H).
+  unfold symbol in He. destruct (get_entry S s) as [e'|] eqn:E; [|discriminate]. injection He as ->.
+  exists e. split; [first [exact E|reflexivity]|]. destruct (fst s).
+  - now apply record_docsym_spec.
+  - now injection H as <-.
+  - now injection H as <-.
+  - now injection H as <-.
+  - apply sbind_ok in H. destruct H as (rs & Hr & H). injection H as <-. exists rs. split; [reflexivity|].
+    apply smap_Forall2 in Hr. induction Hr as [|id x ids xs Hx _ IH]; constructor; [|exact IH].
+    apply sbind_ok in Hx. destruct Hx as (de & Hde & Hx). unfold symbol in Hde.
+    destruct (get_entry S (KRecord, id)) as [de'|] eqn:Ed; [|discriminate]. injection Hde as ->.
+    exists de. split; [first [exact Ed|reflexivity]|]. now apply record_docsym_spec.
+  - apply sbind_ok in H. destruct H as (ts & Ht & H). injection H as <-. exists ts. split; [reflexivity|].
+    now apply leaf_docsyms_spec.
+  - now injection H as <-.
+Qed.
+
+(** the outline of a file: the entries of its symbol list, in order, those that have one *)
+Theorem outline_of_file : forall S f ds, document_symbol S f = SOk (Some ds) ->
+  exists ids rs, iter_symbols_in_file S f = Some ids /\ Forall2 (entry_spec S) ids rs /\ ds = filter_some rs.
+Proof.
+  intros S f ds H. unfold document_symbol in H. destruct (iter_symbols_in_file S f) as [ids|]; [|discriminate].
+  apply sbind_ok in H. destruct H as (rs & Hr & H). injection H as <-. exists ids, rs. split; [reflexivity|].
+  split; [|reflexivity]. apply smap_Forall2 in Hr. induction Hr; constructor; auto. now apply outline_entry.
+Qed.
+
+Theorem outline_none_iff : forall S f, document_symbol S f = SOk None <-> iter_symbols_in_file S f = None.
+Proof.
+  intros S f. unfold document_symbol. destruct (iter_symbols_in_file S f) as [ids|]; split; intros H; try discriminate; auto.
+  destruct (smap (symbol_to_document_symbol S) ids); cbn in H; discriminate.
+Qed.
+
+(** the children of a record entry: as many as template arguments plus fields *)
+Corollary outline_children_count : forall S e d targs fields ps,
+  e_payload e = PRecord RKClass targs fields ps -> record_docsym S e = SOk (Some d) ->
+  List.length (ds_children d) = (List.length targs + List.length fields)%nat.
+Proof.
+  intros S e d targs fields ps Hp H. apply record_docsym_spec in H. unfold record_entry_spec in H. rewrite Hp in H.
+  destruct H as (ts & fs & Hd & Ht & Hf). injection Hd as ->. cbn [ds_children].
+  apply Forall2_length' in Ht. apply Forall2_length' in Hf. unfold amap_values in *. rewrite map_length in *.
+  rewrite app_length. lia.
+Qed.
+
+(** IndexMap semantics of the template-argument / field maps: keys stay distinct, a new key goes to the end
+    (declaration order), a repeated key keeps its position and takes the new value *)
+Lemma list_eqb_eq' : forall a b, list_eqb a b = true <-> a = b.
+Proof.
+  induction a as [|x a IH]; intros [|y b]; cbn [list_eqb]; split; intros H; try discriminate; auto.
+  - apply andb_prop in H. destruct H as [H1 H2]. apply N.eqb_eq in H1. apply IH in H2. congruence.
+  - injection H as -> ->. rewrite N.eqb_refl. now apply IH.
+Qed.
+
+Theorem amap_insert_keys : forall (V : Type) (m : list (name * V)) k v,
+  map fst (amap_insert m k v) = if existsb (fun k' => list_eqb k' k) (map fst m) then map fst m else map fst m ++ [k].
+Proof.
+  induction m as [|[k' v'] m IH]; intros k v; cbn [amap_insert map existsb fst]; [reflexivity|].
+  destruct (list_eqb k' k) eqn:E; cbn [orb map fst]; [reflexivity|]. rewrite IH.
+  destruct (existsb (fun k'0 => list_eqb k'0 k) (map fst m)); reflexivity.
+Qed.
+
+Theorem amap_insert_get : forall (V : Type) (m : list (name * V)) k v k',
+  amap_get (amap_insert m k v) k' = if list_eqb k k' then Some v else amap_get m k'.
+Proof.
+  unfold amap_get. induction m as [|[k0 v0] m IH]; intros k v k'; cbn [amap_insert lookup].
+  - reflexivity.
+  - destruct (list_eqb k0 k) eqn:E; cbn [lookup].
+    + apply list_eqb_eq' in E. subst k0. destruct (list_eqb k k'); reflexivity.
+    + rewrite IH. destruct (list_eqb k k') eqn:E2; [|reflexivity].
+      apply list_eqb_eq' in E2. subst k'. now rewrite E.
+Qed.
+
+(** ================================================================================================
+    H. Hover shows kind / name / declared type of the very symbol go-to-definition jumps to
+    ================================================================================================ *)
+Theorem hover_same_symbol : forall S f p sig loc,
+  extract_symbol_signature S f p = SOk (Some (sig, loc)) ->
+  exists s e, find_symbol_at S f p = SOk (Some (s, e)) /\
+              goto_definition S f p = SOk (Some loc) /\ loc = e_def e /\ signature S s e = SOk sig.
+Proof.
+  intros S f p sig loc H. unfold extract_symbol_signature in H. apply sbind_ok in H. destruct H as (r & Hr & H).
+  destruct r as [[s e]|]; [|discriminate]. apply sbind_ok in H. destruct H as (sg & Hs & H).
+  injection H as <- <-. exists s, e. split; [exact Hr|]. unfold goto_definition. rewrite Hr. cbn. auto.
+Qed.
+
+Theorem hover_iff_definition : forall S f p,
+  (extract_symbol_signature S f p = SOk None <-> goto_definition S f p = SOk None) /\
+  (forall loc, goto_definition S f p = SOk (Some loc) ->
+               (exists sig, extract_symbol_signature S f p = SOk (Some (sig, loc))) \/
+               (exists err, extract_symbol_signature S f p = SErr err)).
+Proof.
+  intros S f p. unfold extract_symbol_signature, goto_definition.
+  destruct (find_symbol_at S f p) as [[[s e]|]|err]; cbn.
+  - split; [split; intros H|].
+    + destruct (signature S s e); cbn in H; discriminate.
+    + discriminate.
+    + intros loc H. injection H as <-. destruct (signature S s e) as [sg|err]; cbn; eauto.
+  - split; [tauto|]. intros loc H. discriminate.
+  - split; [split; discriminate|]. intros loc H. discriminate.
+Qed.
+
+(** what the signature text is made of *)
+Definition sig_spec (S : symbol_map) (s : symbol_id) (e : entry) (sig : name) : Prop :=
+  let n := e_name e in
+  match fst s, e_payload e with
+  | KRecord, PRecord RKClass targs _ _ =>
+      exists parts,
+        Forall2 (fun id part => exists a, get_entry S (KTemplateArg, id) = Some a /\
+                                          part = p_typ (e_payload a) ++ s2n " " ++ e_name a) (amap_values targs) parts /\
+        sig = (if is_nil (join_with (s2n ", ") parts) then s2n "class " ++ n
+               else s2n "class " ++ n ++ s2n "<" ++ join_with (s2n ", ") parts ++ s2n ">")
+  | KRecord, PRecord RKDef _ _ _ => sig = s2n "def " ++ n
+  | KTemplateArg, PTemplateArg typ => sig = typ ++ s2n " " ++ n
+  | KRecordField, PRecordField typ parent =>
+      exists pe, get_entry S (KRecord, parent) = Some pe /\ sig = typ ++ s2n " " ++ e_name pe ++ s2n "::" ++ n
+  | KVariable, PVariable typ => sig = typ ++ s2n " " ++ n
+  | KDefset, PDefset typ _ => sig = typ ++ s2n " " ++ n
+  | KMulticlass, PMulticlass _ _ => sig = s2n "multiclass " ++ n
+  | KDefm, PDefm _ => sig = s2n "defm " ++ n
+  | _, _ => False
+  end.
+
+Theorem signature_shows : forall S s e sig, signature S s e = SOk sig -> sig_spec S s e sig.
+Proof.
+  intros S s e sig H. unfold signature, sig_spec in *.
+  destruct (fst s); destruct (e_payload e) as [k targs fields ps|typ|typ par|typ|typ ds|targs ps|ps]; try discriminate;
+    try (now injection H as <-).
+  - destruct k; [|now injection H as <-].
+    apply sbind_ok in H. destruct H as (parts & Hp & H). injection H as <-. exists parts. split; [|reflexivity].
+    apply smap_Forall2 in Hp. induction Hp as [|id part ids ps' Hx _ IH]; constructor; [|exact IH].
+    apply sbind_ok in Hx. destruct Hx as (a & Ha & Hx). unfold template_arg, symbol in Ha.
+    destruct (get_entry S (KTemplateArg, id)) as [a'|] eqn:E; [|discriminate]. injection Ha as ->.
+    injection Hx as <-. exists a. auto.
+  - apply sbind_ok in H. destruct H as (pe & Hpe & H). unfold record, symbol in Hpe.
+    destruct (get_entry S (KRecord, par)) as [pe'|] eqn:E; [|discriminate]. injection Hpe as ->.
+    injection H as <-. exists pe. auto.
+Qed.
+
+(** the doc comment shown is that of the definition, taken from the definition's file *)
+Theorem hover_doc : forall S trees f p sig doc, hover S trees f p = SOk (Some (sig, doc)) ->
+  exists loc, extract_symbol_signature S f p = SOk (Some (sig, loc)) /\
+    doc = match trees (fr_file loc) with
+          | Some t => match decl_first_token t (fr_lo loc) (fr_hi loc) with
+                      | Some d => doc_spec (leaves_before d)
+                      | None => DocNone
+                      end
+          | None => DocNone
+          end.
+Proof.
+  intros S trees f p sig doc H. unfold hover in H. apply sbind_ok in H. destruct H as (r & Hr & H).
+  destruct r as [[sg loc]|]; [|discriminate]. injection H as <- <-. exists loc. split; [exact Hr|].
+  destruct (trees (fr_file loc)); [apply extract_doc_correct|reflexivity].
+Qed.
+
+(** ================================================================================================
+    I. Inlay hints
+    ================================================================================================ *)
+(** only hints inside the requested range (bounds inclusive) are returned -- for every state, tree and range *)
+Theorem inlay_range : forall S trees loc hs, inlay_hint S trees loc = SOk (Some hs) ->
+  Forall (fun h => fr_lo loc <= h_pos h /\ h_pos h <= fr_hi loc) hs.
+Proof.
+  intros S trees loc hs H. unfold inlay_hint in H. apply sbind_ok in H. destruct H as (r & _ & H).
+  destruct r as [l|]; [|discriminate]. destruct (trees (fr_file loc)) as [t|].
+  - apply sbind_ok in H. destruct H as (hss & _ & H). injection H as <-.
+    apply Forall_forall. intros h Hh. apply filter_In in Hh. destruct Hh as [_ Hh].
+    unfold in_range_inclusive in Hh. apply andb_prop in Hh. destruct Hh as [H1 H2].
+    apply N.leb_le in H1. apply N.leb_le in H2. auto.
+  - injection H as <-. constructor.
+Qed.
+
+(** every returned hint belongs to a symbol whose identifier overlaps the requested range *)
+Lemma Forall2_in_r : forall (A B : Type) (R : A -> B -> Prop) l r y,
+  Forall2 R l r -> In y r -> exists x, In x l /\ R x y.
+Proof.
+  intros A B R l r y H. induction H as [|a b l' r' Hab _ IH]; intros Hin; [destruct Hin|].
+  destruct Hin as [<-|Hin].
+  - exists a. split; [now left|exact Hab].
+  - destruct (IH Hin) as (x & Hx & Hr). exists x. split; [now right|exact Hr].
+Qed.
+
+Theorem inlay_from_symbols : forall S trees loc hs h, inlay_hint S trees loc = SOk (Some hs) -> In h hs ->
+  exists t l x xs, trees (fr_file loc) = Some t /\ iter_symbols_in_range S loc = SOk (Some l) /\
+                   In x l /\ hints_of_symbol S t x = SOk xs /\ In h xs.
+Proof.
+  intros S trees loc hs h H Hin. unfold inlay_hint in H. apply sbind_ok in H. destruct H as (r & Hr & H).
+  destruct r as [l|]; [|discriminate]. destruct (trees (fr_file loc)) as [t|] eqn:Et.
+  - apply sbind_ok in H. destruct H as (hss & Hs & H). injection H as <-.
+    apply filter_In in Hin. destruct Hin as [Hin _]. apply in_concat in Hin. destruct Hin as (xs & Hxs & Hh).
+    apply smap_Forall2 in Hs. destruct (Forall2_in_r _ _ _ _ _ _ Hs Hxs) as (x & Hx & Hxx).
+    exists t, l, x, xs. auto.
+  - injection H as <-. destruct Hin.
+Qed.
+
+(** positional argument i is labelled with template parameter i's name, at the argument's first character *)
+Theorem zip_hints_nth : forall starts names i h,
+  nth_error (zip_hints starts names) i = Some h <->
+  exists p n, nth_error starts i = Some p /\ nth_error names i = Some n /\ h = mkHint p (n ++ s2n ":") HKTemplateArg.
+Proof.
+  unfold zip_hints. induction starts as [|p starts IH]; intros names i h.
+  - cbn [combine map]. split; [destruct i; discriminate|]. intros (p & n & H & _). destruct i; discriminate.
+  - destruct names as [|n names].
+    + cbn [combine map]. split; [destruct i; discriminate|]. intros (p' & n' & _ & H & _). destruct i; discriminate.
+    + cbn [combine map]. destruct i as [|i]; cbn [nth_error].
+      * split; [intros H; injection H as <-; eauto|]. intros (p' & n' & H1 & H2 & ->). now injection H1 as <-; injection H2 as <-.
+      * apply IH.
+Qed.
+
+Theorem zip_hints_length : forall starts names,
+  List.length (zip_hints starts names) = Nat.min (List.length starts) (List.length names).
+Proof. intros. unfold zip_hints. now rewrite map_length, combine_length. Qed.
+
+Lemma take_while_spec : forall (A : Type) (p : A -> bool) l,
+  exists rest, l = take_while p l ++ rest /\ Forall (fun x => p x = true) (take_while p l) /\
+               match rest with [] => True | x :: _ => p x = false end.
+Proof.
+  induction l as [|x l IH]; cbn [take_while].
+  - exists []. repeat split; constructor.
+  - destruct (p x) eqn:E.
+    + destruct IH as (rest & H1 & H2 & H3). exists rest. cbn [app]. repeat split; [now rewrite <- H1|constructor; auto|exact H3].
+    + exists (x :: l). repeat split; [constructor|exact E].
+Qed.
+
+Theorem inlay_class_args : forall S t targs lo hi hs, inlay_hint_class S t targs lo hi = SOk hs ->
+  (class_arg_list t lo hi = None /\ hs = []) \/
+  exists al names rest,
+    class_arg_list t lo hi = Some al /\
+    Forall2 (fun id n => exists a, get_entry S (KTemplateArg, id) = Some a /\ n = e_name a) (amap_values targs) names /\
+    child_node_cursors is_arg_value al =
+      take_while (fun c => sk_eqb (kind_of (fst c)) S_PositionalArgValue) (child_node_cursors is_arg_value al) ++ rest /\
+    match rest with [] => True | x :: _ => sk_eqb (kind_of (fst x)) S_PositionalArgValue = false end /\
+    hs = zip_hints (map cur_offset (take_while (fun c => sk_eqb (kind_of (fst c)) S_PositionalArgValue)
+                                               (child_node_cursors is_arg_value al))) names.
+Proof.
+  intros S t targs lo hi hs H. unfold inlay_hint_class in H.
+  destruct (class_arg_list t lo hi) as [al|]; [|left; split; [reflexivity|now injection H as <-]].
+  right. apply sbind_ok in H. destruct H as (names & Hn & H). injection H as <-.
+  destruct (take_while_spec _ (fun c : cursor => sk_eqb (kind_of (fst c)) S_PositionalArgValue)
+              (child_node_cursors is_arg_value al)) as (rest & H1 & _ & H3).
+  exists al, names, rest. split; [reflexivity|]. split; [|split; [exact H1|split; [exact H3|reflexivity]]].
+  apply smap_Forall2 in Hn. induction Hn as [|id n ids ns Hx _ IH]; constructor; [|exact IH].
+  apply sbind_ok in Hx. destruct Hx as (a & Ha & Hx). unfold template_arg, symbol in Ha.
+  destruct (get_entry S (KTemplateArg, id)) as [a'|] eqn:E; [|discriminate]. injection Ha as ->.
+  injection Hx as <-. exists a. auto.
+Qed.
+
+(** a field override is labelled with the field's declared type, right after the field name *)
+Theorem inlay_field_let : forall t typ lo hi h, In h (inlay_hint_record_field t typ lo hi) ->
+  h = mkHint hi (s2n ":" ++ typ) HKFieldLet /\ inlay_hint_record_field t typ lo hi = [h] /\
+  exists idc fl, identifier_node t lo hi false = Some idc /\ parent idc = Some fl /\ kind_of (fst fl) = S_FieldLet.
+Proof.
+  intros t typ lo hi h H. unfold inlay_hint_record_field in *.
+  destruct (identifier_node t lo hi false) as [idc|]; [|destruct H].
+  destruct (parent idc) as [fl|]; [|destruct H].
+  destruct (sk_eqb (kind_of (fst fl)) S_FieldLet) eqn:E; [|destruct H].
+  destruct H as [<-|[]]. split; [reflexivity|]. split; [reflexivity|]. exists idc, fl. repeat split.
+  unfold sk_eqb in E. apply N.eqb_eq in E. destruct (kind_of (fst fl)); try discriminate E. reflexivity.
+Qed.
